@@ -659,7 +659,7 @@ func runC14(args []string) {
 		runC14Prog(we, p, i)
 	})
 	t1 := time.Now()
-	out, _ := pipe.RunGo(we.Dir, "build", "-buildvcs=false", "-gcflags=-e", "./c14c/...")
+	out, _ := bulkBuild(we.Dir, "build", "-buildvcs=false", "-gcflags=-e", "./c14c/...")
 	errs := splitBuildErrors(string(out), "corpus/c14c/")
 	rc.Notes = append(rc.Notes, fmt.Sprintf("%d programs: migrate runs %.0fs, compile %.0fs", len(progs), t1.Sub(t0).Seconds(), time.Since(t1).Seconds()))
 
